@@ -80,7 +80,8 @@ func interpRun(evm *corevm.EVM, contract *corevm.Contract, input []byte, readOnl
 	if contract.CodeAddr != nil {
 		sc = Scripts[*contract.CodeAddr]
 	}
-	if sc == nil && CreateScript != nil && contract.CodeAddr == nil {
+	if sc == nil {
+		// code without a registered script: the init code of a creation frame
 		sc = CreateScript
 	}
 	if sc == nil {
